@@ -955,7 +955,8 @@ const VALUES: [&str; 14] = ["a", "b7", "hello", "x y", "", "0", "true", "two wor
 
 struct G<'r> {
     /// "big" mode (one program in twenty): ONE dimension goes beyond the usual small pools
-    /// (1 long values, 2 nesting depth, 3 branch count, 4 array length, 5 argument count, 6 loop iterations)
+    /// (1 long values, 2 nesting depth, 3 branch count, 4 array length, 5 argument count, 6 loop iterations,
+    /// 7 loops of more than 64 rounds)
     big: u8,
     /// every function was generated with zero parameters (no body reads ${1}...)
     no_params_read: bool,
@@ -1228,10 +1229,10 @@ pub fn generate_program(rng: &mut Rng, opts: &GenOpts) -> Program {
         1 => 16,
         _ => opts.max_stmts as i64,
     };
-    let big: u8 = if rng.chance(1, 20) { 1 + rng.below(6) as u8 } else { 0 };
+    let big: u8 = if rng.chance(1, 20) { *rng.pick(&[1u8, 2, 3, 4, 5, 6, 7, 7]) } else { 0 };
     let arrays: Vec<Vec<String>> = (0..n_arrays)
         .map(|_| {
-            let n = if big == 4 && rng.chance(1, 2) { 17 + rng.usize(24) } else { rng.usize(4) };
+            let n = if big == 4 && rng.chance(1, 2) { 17 + rng.usize(24) } else if big == 7 && rng.chance(1, 2) { 65 + rng.usize(80) } else { rng.usize(4) };
             (0..n).map(|_| rng.pick(&["a", "b", "c", "d d", ""]).to_string()).filter(|s| !s.is_empty()).collect()
         })
         .collect();
@@ -1269,11 +1270,24 @@ pub fn generate_program(rng: &mut Rng, opts: &GenOpts) -> Program {
     if g.rng.chance(1, 2) {
         main.push(Stmt::Emit(vec!["end".to_string()]));
     }
+    if g.big == 7 && g.rng.chance(2, 3) {
+        // the whole program as the taken branch of one enclosing if: whatever happens inside (long loops, many
+        // blocks entered and left), the enclosing block must still know that its branch was taken when its
+        // elseif / else lines are reached
+        let sp = g.rng.next_u64() as u32;
+        let mut branches = vec![(Cond::Val("yes".to_string()), std::mem::take(&mut main))];
+        if g.rng.chance(1, 2) {
+            branches.push((Cond::Val("true".to_string()), vec![Stmt::Emit(vec!["enclosing-elseif-taken".to_string()])]));
+        }
+        main = vec![Stmt::If { branches, els: Some(vec![Stmt::Emit(vec!["enclosing-else-taken".to_string()])]), sp }, Stmt::Emit(vec!["after-enclosing".to_string()])];
+    }
     let n_cnd = g.n_cnd;
     let cnd: Vec<Vec<bool>> = (0..n_cnd)
         .map(|_| {
-            let n = if g.big == 6 && g.rng.chance(1, 4) { 8 + g.rng.usize(12) } else { g.rng.usize(4) };
-            (0..n).map(|_| g.rng.chance(2, 3)).collect()
+            // (7: loops of more than 64 rounds - bookkeeping that is capped or never popped shows there)
+            let long = g.big == 7 && g.rng.chance(1, 2);
+            let n = if g.big == 6 && g.rng.chance(1, 4) { 8 + g.rng.usize(12) } else if long { 65 + g.rng.usize(80) } else { g.rng.usize(4) };
+            (0..n).map(|_| if long { g.rng.chance(19, 20) } else { g.rng.chance(2, 3) }).collect()
         })
         .collect();
     let fail_leaf = if opts.faults && g.rng.chance(2, 3) {
